@@ -101,12 +101,28 @@ def Actor.flush (fix : Bool) (φ : Nat → Outcome) (a : Actor) : Actor :=
         acks := (a.pending.map (fun p => (⟨p.1, p.2, res, r.w.io⟩ : AckRec))).reverse ++ a.acks,
         tbound := a.tbound }
 
+/-- incarnation boundary, see `Ev.reopen` -/
+def Actor.reopen (fix : Bool) (φ : Nat → Outcome) (crash reuse : Bool) (a : Actor) : Actor :=
+  if crash then
+    let w' := a.rot.w.push (crashStore a.rot.w.store) .crash
+    { a with rot := Rot.reopen reuse { a.rot with w := w' }, pending := [], esync := 0,
+             acks := (a.pending.map (fun p => (⟨p.1, p.2, .err .io, w'.io⟩ : AckRec))).reverse ++ a.acks }
+  else
+    let a1 := Actor.flush fix φ a
+    { a1 with rot := Rot.reopen reuse a1.rot }
+
 inductive Ev where
   | write (w : Write)        -- `write_durable`
   | forget (w : Write)       -- `write_fire_and_forget`
   | tick                     -- `sync_tick`
   | truncate (T : Nat)       -- `truncate`
   | flush                    -- group-commit flush (timeout / batch full / `shutdown`)
+  /-- end of this actor incarnation and start of the next one over the same store.
+      `crash = false`: clean shutdown (final flush), the process restarts, nothing on disk is lost;
+      `crash = true`: the machine crashes (every file keeps what a successful fsync covered, writers
+      still waiting get no ack), then restarts.  `reuse` selects the variant of `WalRotator::new` /
+      `rotate` (see `Rot.reopen`); the current code is `reuse = false`. -/
+  | reopen (crash : Bool) (reuse : Bool)
   deriving DecidableEq, Repr, Inhabited
 
 def Actor.step (fix tickSyncs : Bool) (φ : Nat → Outcome) (fmt : Format) (crc : Bytes → Nat)
@@ -116,6 +132,7 @@ def Actor.step (fix tickSyncs : Bool) (φ : Nat → Outcome) (fmt : Format) (crc
   | .tick => Actor.handleTick fix tickSyncs φ a
   | .truncate T => Actor.handleTruncate φ fmt crc a T
   | .flush => Actor.flush fix φ a
+  | .reopen crash reuse => Actor.reopen fix φ crash reuse a
 
 def Actor.run (fix tickSyncs : Bool) (φ : Nat → Outcome) (fmt : Format) (crc : Bytes → Nat)
     (maxSize : Nat) (evs : List Ev) : Actor :=
